@@ -55,6 +55,17 @@ func whoMayWrite(c *an.Ctx, rule, pkgRel, typ, field string, allowed []storeRule
 			}
 		}
 		if sr == nil {
+			// a helper that is only ever called from the owning functions acts on their behalf
+			var owners []string
+			for _, a := range allowed {
+				if a.check == nil {
+					owners = append(owners, a.fn)
+				}
+			}
+			if len(owners) > 0 && onlyCalledFrom(c, fs.Fn, owners, 0) {
+				c.Ok(rule, key, fs.Store.Pos(), "helper called only from "+strings.Join(owners, ", "))
+				continue
+			}
 			c.Bad(rule, key, fs.Store.Pos(), fmt.Sprintf("%s.%s is written outside the functions that own it (%s)", typ, field, allowedNames(allowed)),
 				"value: "+an.Expr(fs.Store.Val))
 			continue
@@ -176,4 +187,41 @@ func guardStillValid(c *an.Ctx, a an.Atom, target ssa.Instruction, pkgRel, typ, 
 		return false, fmt.Sprintf("%s may be written between the guard and the use, at %s", field, c.P.Position(w.Pos()))
 	}
 	return true, ""
+}
+
+// onlyCalledFrom: every static call site of fn lies in one of the named functions (or in helpers for which
+// the same holds); fn must not be exported, address-taken or an interface method implementation used dynamically.
+func onlyCalledFrom(c *an.Ctx, fn *ssa.Function, owners []string, depth int) bool {
+	if depth > 3 || fn == nil {
+		return false
+	}
+	isOwner := func(n string) bool {
+		for _, o := range owners {
+			if o == n {
+				return true
+			}
+		}
+		return false
+	}
+	n := 0
+	ok := true
+	cg := c.P.CallGraph()
+	node := cg.Nodes[fn]
+	if node == nil {
+		return false
+	}
+	for _, e := range node.In {
+		if !c.P.InModule(e.Caller.Func) {
+			return false
+		}
+		n++
+		caller := an.RelName(an.OuterFn(e.Caller.Func))
+		if isOwner(caller) {
+			continue
+		}
+		if !onlyCalledFrom(c, an.OuterFn(e.Caller.Func), owners, depth+1) {
+			ok = false
+		}
+	}
+	return ok && n > 0
 }
